@@ -38,6 +38,8 @@ def generate(rng, tier):
     ops = []
     altered = {}
     n = rng.randint(1, 6)
+    if rng.random() < 0.05:
+        n = rng.randint(11, 13)  # two-digit generation numbers
     for g in range(n):
         if g > 0:
             r = rng.random()
